@@ -481,8 +481,19 @@ func queryJSON(q *Q) json.RawMessage {
 }
 
 type checker struct {
-	r  *mc.Run
-	bk *book
+	r     *mc.Run
+	bk    *book
+	dbgMu sync.Mutex
+	dbg   map[string]int // outcome dump for debugging (C20_DEBUG_OUTCOMES=file)
+}
+
+func (ck *checker) outcome(k string) {
+	ck.r.Outcome(k)
+	if ck.dbg != nil {
+		ck.dbgMu.Lock()
+		ck.dbg[k]++
+		ck.dbgMu.Unlock()
+	}
 }
 
 // symptomClass names a violation of "hits are parents, each once, Total = parents".
@@ -606,7 +617,7 @@ func (ck *checker) evalQ(c *corpus, b built, q *Q, score string, want []Tri) {
 	}
 	got, _, ok := ck.search(idx, nested, q, c.internal+5, score, where)
 	if !ok {
-		r.Outcome(mappingName(nested) + "|" + q.Kind + "|failed")
+		ck.outcome(mappingName(nested) + "|" + q.Kind + "|failed")
 		return
 	}
 	nEither, nFound := 0, 0
@@ -670,11 +681,16 @@ func (ck *checker) evalQ(c *corpus, b built, q *Q, score string, want []Tri) {
 			}
 		}
 	}
+	if ck.dbg != nil && nested {
+		ck.dbgMu.Lock()
+		ck.dbg[fmt.Sprintf("R|%s|%s|%s|%q|%v", c.name, layoutName[layout], q, score, bxKeys(got))]++
+		ck.dbgMu.Unlock()
+	}
 	nb := len(got)
 	if nb > 3 {
 		nb = 3 + nb*4/(len(c.ids)+1) // coarse bucket
 	}
-	r.Outcome(fmt.Sprintf("%s|%s|hits~%d|either=%v", mappingName(nested), q.Kind, nb, nEither > 0))
+	ck.outcome(fmt.Sprintf("%s|%s|hits~%d|either=%v", mappingName(nested), q.Kind, nb, nEither > 0))
 	if nEither > 0 {
 		r.Count("Q:searches_with_a_three-valued_parent", 1)
 	}
@@ -1036,7 +1052,7 @@ func partHMem(r *mc.Run, ck *checker, states *stateSet) {
 		r.Transition(1)
 		states.visit(r, modelKey(model))
 		sig := ck.observe(idx, model, h, "mem")
-		r.Outcome("H|mem|" + sig)
+		ck.outcome("H|mem|" + sig)
 		countHist(r, h)
 	})
 }
@@ -1243,7 +1259,7 @@ func partHDisk(r *mc.Run, ck *checker, states *stateSet) {
 		if seg0 > 1 {
 			r.Count("H:disk_histories_observed_with_several_segments", 1)
 		}
-		r.Outcome(fmt.Sprintf("H|disk|%s|%s|%s", s0, s1, s2))
+		ck.outcome(fmt.Sprintf("H|disk|%s|%s|%s", s0, s1, s2))
 	})
 }
 
@@ -1251,6 +1267,9 @@ func partHDisk(r *mc.Run, ck *checker, states *stateSet) {
 
 func Run(r *mc.Run) {
 	ck := &checker{r: r, bk: &book{}}
+	if os.Getenv("C20_DEBUG_OUTCOMES") != "" {
+		ck.dbg = map[string]int{}
+	}
 	r.Rule("Part Q (E2): every parent document of three cartesian families (A: name × every ordered items array of 0–3 elements over k,v ∈ {x,y}; " +
 		"B: items multiset 0–2 × tags multiset 1–3; C: items of 1–2 elements each with a subs multiset over a,b ∈ {x,y}) " +
 		"× {nested, non-nested} mapping × {one segment, many segments with deleted/updated/re-created parents} × score {default, none} " +
@@ -1290,6 +1309,14 @@ func Run(r *mc.Run) {
 		lap("part_H_disk")
 	}
 	ck.bk.flush(r)
+	if ck.dbg != nil {
+		var ks []string
+		for k, n := range ck.dbg {
+			ks = append(ks, fmt.Sprintf("%s %d", k, n))
+		}
+		sort.Strings(ks)
+		os.WriteFile(os.Getenv("C20_DEBUG_OUTCOMES"), []byte(strings.Join(ks, "\n")+"\n"), 0o644)
+	}
 }
 
 func contextBackground() context.Context { return context.Background() }
@@ -1298,4 +1325,13 @@ func bxRemove(d string) {
 	if d != "" {
 		os.RemoveAll(d)
 	}
+}
+
+func bxKeys(m map[string]bool) []string {
+	var k []string
+	for s := range m {
+		k = append(k, s)
+	}
+	sort.Strings(k)
+	return k
 }
